@@ -2,6 +2,7 @@ import ObiVerif.Model.Grep
 import ObiVerif.Model.Annotate
 import ObiVerif.Lemmas.Grep
 import ObiVerif.Lemmas.Annotate
+import ObiVerif.Lemmas.AnnotateLib
 import ObiVerif.Lemmas.Distribute
 import ObiVerif.Props.C03
 /-!
@@ -403,7 +404,7 @@ example : Distribute.encodeAll [] [("A", ""), ("NA", ""), ("A", ""), ("B", "")] 
 /-- the worker built by `CLIAnnotationWorker` is the chain of the requested edits: one worker per
 option that is given, none for an option that is not, in the fixed order clear, set-identifier,
 delete-tag, keep, rename-tag, with-taxon-at-rank, taxonomic-path, taxonomic-rank, scientific-name,
-length, set-tag, aho-corasick, cut, pattern -/
+add-lca-in, length, set-tag, aho-corasick, cut, pattern -/
 theorem annotate_exact (O : Annotate.Oracles) (o : AnnotOpts) (r : Rec) :
     annotate O o r = applyAll (requestedEdits O o) r ∧
     requestedEdits O o =
@@ -416,11 +417,13 @@ theorem annotate_exact (O : Annotate.Oracles) (o : AnnotOpts) (r : Rec) :
       (if o.taxonomicPath then [setFromTaxonomy "taxonomic_path" O.taxPath] else []) ++
       (if o.withRank then [setFromTaxonomy "taxonomic_rank" O.taxRank] else []) ++
       (if o.withScientificName then [setFromTaxonomy "scienctific_name" O.sciName] else []) ++
+      (if o.lcaSlot ≠ "" then [addLCA O o.lcaSlot o.lcaError] else []) ++
       (if o.setSeqLength then [addSeqLength] else []) ++
       (if o.evalAttribute ≠ [] then [evalAttributes O o.evalAttribute] else []) ++
       (if o.ahoCorasick then [ahoCorasick O] else []) ++
       (if o.cut.1 ≠ 0 ∧ o.cut.2 ≠ 0 then [cutSequence o.cut.1 o.cut.2] else []) ++
-      (if o.pattern ≠ "" then [matchPattern O o.pattern o.patternName o.patternError o.patternIndel] else []) :=
+      (if o.pattern ≠ "" then
+        [matchPattern O o.pattern o.patternName o.patternError o.patternIndel o.patternBothStrand] else []) :=
   ⟨rfl, rfl⟩
 
 /-- `ChainWorkers` is sequential composition: the edits of `a`, then those of `b` on the result; a
@@ -446,7 +449,7 @@ theorem annotate_keeps_sequence (O : Annotate.Oracles) (o : AnnotOpts) (r r' : R
   intro e he
   unfold requestedEdits at he
   simp only [List.mem_append] at he
-  rcases he with ((((((((((((he | he) | he) | he) | he) | he) | he) | he) | he) | he) | he) | he) | he) | he <;>
+  rcases he with (((((((((((((he | he) | he) | he) | he) | he) | he) | he) | he) | he) | he) | he) | he) | he) | he <;>
     obtain ⟨hc, rfl⟩ := mem_ite_singleton he
   · exact clearAll_keeps_seq
   · exact editId_keeps _ O _ (fun _ _ => rfl)
@@ -457,29 +460,31 @@ theorem annotate_keeps_sequence (O : Annotate.Oracles) (o : AnnotOpts) (r r' : R
   · exact setFromTaxonomy_keeps _ _ _ (fun v => setAttribute_keeps_seq _ v)
   · exact setFromTaxonomy_keeps _ _ _ (fun v => setAttribute_keeps_seq _ v)
   · exact setFromTaxonomy_keeps _ _ _ (fun v => setAttribute_keeps_seq _ v)
+  · exact addLCA_keeps _ O _ _ (fun k _ v => setAttribute_keeps_seq k v)
   · exact addSeqLength_keeps_seq
   · exact evalAttributes_keeps_seq O _
   · exact dynAttrs_keeps _ _ _ (ahoCorasickAttrs_keys O) (fun k _ v => setAttribute_keeps_seq k v)
   · rcases hcut with h0 | h0
     · exact absurd h0 hc.1
     · exact absurd h0 hc.2
-  · exact dynAttrs_keeps _ _ _ (matchPatternAttrs_keys O _ _ _ _) (fun k _ v => setAttribute_keeps_seq k v)
+  · exact dynAttrs_keeps _ _ _ (matchPatternAttrs_keys O _ _ _ _ _) (fun k _ v => setAttribute_keeps_seq k v)
 
 /-- **the identifier is changed only by `--set-identifier`, by `--cut` (which appends the cut
-coordinates) and by a `--rename-tag id=…` / `--set-tag id=…`** (`hlib`: no library-driven worker is asked to write an
-attribute called `id` — their attribute names all carry a suffix, `libraryKeys`) -/
+coordinates) and by a `--rename-tag id=…` / `--set-tag id=…`**.  (The former hypothesis `hlib`, "no
+library-driven worker is asked to write an attribute called `id`", is now proved for every option set:
+`id_not_libraryKey`, from `libraryKeys_not_reserved`.) -/
 theorem annotate_keeps_identifier (O : Annotate.Oracles) (o : AnnotOpts) (r r' : Rec)
     (hid : o.setId = "") (hcut : o.cut.1 = 0 ∨ o.cut.2 = 0)
     (hren : ∀ p ∈ o.toBeRenamed, p.1 ≠ "id") (htag : ∀ p ∈ o.evalAttribute, p.1 ≠ "id")
-    (hlib : "id" ∉ libraryKeys o)
     (h : annotate O o r = .ok r') : r'.id = r.id := by
+  have hlib : "id" ∉ libraryKeys o := id_not_libraryKey o
   have hk : ∀ k ∈ libraryKeys o, ∀ v, Keeps (·.id) (setAttribute k v) :=
     fun k hk v => setAttribute_keeps_id k v (fun e => hlib (e ▸ hk))
   refine applyAll_keeps (·.id) (requestedEdits O o) ?_ r r' h
   intro e he
   unfold requestedEdits at he
   simp only [List.mem_append] at he
-  rcases he with ((((((((((((he | he) | he) | he) | he) | he) | he) | he) | he) | he) | he) | he) | he) | he <;>
+  rcases he with (((((((((((((he | he) | he) | he) | he) | he) | he) | he) | he) | he) | he) | he) | he) | he) | he <;>
     obtain ⟨hc, rfl⟩ := mem_ite_singleton he
   · exact clearAll_keeps_id
   · exact absurd hid hc
@@ -490,6 +495,7 @@ theorem annotate_keeps_identifier (O : Annotate.Oracles) (o : AnnotOpts) (r r' :
   · exact setFromTaxonomy_keeps _ _ _ (fun v => hk _ (by simp [libraryKeys, hc]) v)
   · exact setFromTaxonomy_keeps _ _ _ (fun v => hk _ (by simp [libraryKeys, hc]) v)
   · exact setFromTaxonomy_keeps _ _ _ (fun v => hk _ (by simp [libraryKeys, hc]) v)
+  · exact addLCA_keeps _ O _ _ (fun k hkk v => hk k (mem_libraryKeys_lca o hc k hkk) v)
   · exact addSeqLength_keeps_id
   · exact evalAttributes_keeps_id O _ htag
   · exact dynAttrs_keeps _ _ _ (ahoCorasickAttrs_keys O) (fun k hkk v => hk k (by
@@ -497,7 +503,7 @@ theorem annotate_keeps_identifier (O : Annotate.Oracles) (o : AnnotOpts) (r r' :
   · rcases hcut with h0 | h0
     · exact absurd h0 hc.1
     · exact absurd h0 hc.2
-  · exact dynAttrs_keeps _ _ _ (matchPatternAttrs_keys O _ _ _ _) (fun k hkk v => hk k (by
+  · exact dynAttrs_keeps _ _ _ (matchPatternAttrs_keys O _ _ _ _ _) (fun k hkk v => hk k (by
       simp only [libraryKeys, hc, ne_eq, not_false_eq_true, if_true, List.mem_append]; exact Or.inr hkk) v)
 
 /-- **an attribute that no option names is unchanged** (present with the same value, or absent):
@@ -517,7 +523,7 @@ theorem annotate_keeps_attribute (O : Annotate.Oracles) (o : AnnotOpts) (r r' : 
   intro e he
   unfold requestedEdits at he
   simp only [List.mem_append] at he
-  rcases he with ((((((((((((he | he) | he) | he) | he) | he) | he) | he) | he) | he) | he) | he) | he) | he <;>
+  rcases he with (((((((((((((he | he) | he) | he) | he) | he) | he) | he) | he) | he) | he) | he) | he) | he) | he <;>
     obtain ⟨hc, rfl⟩ := mem_ite_singleton he
   · simp [hclear] at hc
   · exact editId_keeps _ O _ (fun _ _ => rfl)
@@ -535,6 +541,7 @@ theorem annotate_keeps_attribute (O : Annotate.Oracles) (o : AnnotOpts) (r r' : 
   · exact setFromTaxonomy_keeps _ _ _ (fun v => hk _ (by simp [libraryKeys, hc]) v)
   · exact setFromTaxonomy_keeps _ _ _ (fun v => hk _ (by simp [libraryKeys, hc]) v)
   · exact setFromTaxonomy_keeps _ _ _ (fun v => hk _ (by simp [libraryKeys, hc]) v)
+  · exact addLCA_keeps _ O _ _ (fun k' hkk v => hk k' (mem_libraryKeys_lca o hc k' hkk) v)
   · intro x x' hx
     show x'.attrs.lookup k = x.attrs.lookup k
     rw [addSeqLength_lookup x x' hx k]
@@ -548,7 +555,7 @@ theorem annotate_keeps_attribute (O : Annotate.Oracles) (o : AnnotOpts) (r r' : 
     show x'.attrs.lookup k = x.attrs.lookup k
     have e : x'.attrs = x.attrs := cutSequence_keeps_attrs _ _ x x' hx
     rw [e]
-  · exact dynAttrs_keeps _ _ _ (matchPatternAttrs_keys O _ _ _ _) (fun k' hkk v => hk k' (by
+  · exact dynAttrs_keeps _ _ _ (matchPatternAttrs_keys O _ _ _ _ _) (fun k' hkk v => hk k' (by
       simp only [libraryKeys, hc, ne_eq, not_false_eq_true, if_true, List.mem_append]; exact Or.inr hkk) v)
 
 /-! ### what each edit does (one worker) -/
@@ -643,7 +650,7 @@ example : ∃ r', annotate exA exAOpts exRec = .ok r' ∧ r'.seq = exRec.seq ∧
     r'.attrs.lookup "b" = exRec.attrs.lookup "b" := by
   refine ⟨_, rfl, ?_, ?_, ?_⟩
   · exact annotate_keeps_sequence exA exAOpts exRec _ (by decide) rfl
-  · exact annotate_keeps_identifier exA exAOpts exRec _ (by decide) (by decide) (by decide) (by decide) (by decide) rfl
+  · exact annotate_keeps_identifier exA exAOpts exRec _ (by decide) (by decide) (by decide) (by decide) rfl
   · exact annotate_keeps_attribute exA exAOpts exRec _ "b" (by decide) (by decide) (by decide) (by decide)
       (by decide) (by decide) (by decide) rfl
 
